@@ -283,7 +283,7 @@ def gen_table(rng):
             k = rng.choice(['str_other', 'fn_other'])
         st = {'k': k}
         if k == 'map':
-            st['args'] = [[kk, mk.next(rng)] for kk in rng.sample(['x', 'y', 0, 1, 'w'], rng.randrange(0, 4))]
+            st['args'] = [[kk, mk.next(rng)] for kk in rng.sample(['x', 'y', 0, 1, 'w', '_func'], rng.randrange(0, 4))]
         elif k in ('list', 'mergelist'):
             st['list'] = [mk.next(rng) for _ in range(rng.randrange(0, 4))]
         elif k == 'str_other' or k.startswith('fn_other'):
@@ -394,9 +394,52 @@ def _classify_same_name(case, texts, func, args):
     return 'table-differs'
 
 
+BUILTINS = [('range', [1, 5]), ('max', [3, 9]), ('int', ['12']), ('divmod', [7, 2]), ('round', [2.567, 1]), ('min', [4, 2, 8]), ('len', ['abc']), ('pow', [2, 5])]
+
+
+def gen_builtin(rng):
+    # targets whose signature python cannot introspect: contiguous positions need no names
+    name, args = rng.choice(BUILTINS)
+    return {'kind': 'builtin', 'name': name, 'args': args, 'form': rng.choice(['list', 'intmap', 'scalar' if len(args) == 1 else 'list']), 'node': rng.choice(['call', 'bind'])}
+
+
+def run_builtin(case):
+    import builtins
+    f = getattr(builtins, case['name'])
+    args = case['args']
+    if case['form'] == 'list':
+        a = L([emit.from_plain(v) for v in args])
+    elif case['form'] == 'intmap':
+        a = M([[i, emit.from_plain(v)] for i, v in enumerate(args)])
+    else:
+        a = emit.from_plain(args[0])
+    text = emit.emit(M([['r', SP(case['node'], func=case['name'], args=a)]]), 'flow')
+    want = f(*args)
+    got = lib.outcome(lambda: lib.build([text]))
+    vio = []
+    if got[0] != 'ok':
+        vio.append({'mech': 'valid-call-rejected', 'what': f'python evaluates {case["name"]}(*{args!r}) = {want!r} but the build {lib.describe(got)}; text={text!r}'})
+    else:
+        v = got[1]['r']
+        if case['node'] == 'bind':
+            v = lib.outcome(v)
+            v = v[1] if v[0] == 'ok' else v
+        if v != want or type(v) is not type(want):
+            vio.append({'mech': 'call-result-differs', 'what': f'python evaluates {case["name"]}(*{args!r}) = {want!r} but the config gives {v!r}; text={text!r}'})
+    res = {'status': 'violation' if vio else 'ok', 'nontrivial': True, 'feats': ['builtin_target_' + case['form']], 'sig': util.sig([case['name'], case['form'], case['node']])}
+    if vio:
+        res['violations'] = vio
+    return res
+
+
 def gen_case(rng, tier):
-    return gen_binding(rng) if rng.random() < 0.65 else gen_table(rng)
+    r = rng.random()
+    if r < 0.05:
+        return gen_builtin(rng)
+    return gen_binding(rng) if r < 0.65 else gen_table(rng)
 
 
 def run(case):
+    if case['kind'] == 'builtin':
+        return run_builtin(case)
     return run_binding(case) if case['kind'] == 'binding' else run_table(case)
